@@ -18,7 +18,7 @@ def klass(r):
 
 
 def run(ctx):
-    fams = [("nc2", {}), ("chain", {"NC": "13", "HeapMode": '"chain"'})]
+    fams = [("nc2", {}), ("chain", {"NC": "13" if ctx.thorough else "11", "HeapMode": '"chain"', "ChainLens": "{9, 10, 11, 12, 13}" if ctx.thorough else "{10, 11}"})]
     if ctx.thorough:
         fams.insert(1, ("nc3", {"NC": "3"}))
     rows = {}
